@@ -557,9 +557,9 @@ V("C20", "contributor-strip-via-map", "S", "", CAP, "contributor_lines={item.str
 V("C10", "contributor-strip-at-call-site", "S", "", CAP, "    reuse_info = get_reuse_info(\n        copyrights, licenses, contributors, copyright_prefix, year\n    )\n",
   "    reuse_info = get_reuse_info(\n        [c.strip() for c in copyrights], licenses, [c.strip() for c in contributors], copyright_prefix, year\n    )\n")
 for _p, _r in (("C06", "R4"), ("C01", "C06.R4"), ("C19", "C06.R4")):
-    V(_p, "whole-name-not-looked-up-first", "F", _r, R + "project.py", "        if not path.suffix or path.name in self.license_map:\n", "        if not path.suffix:\n")
-V("C06", "whole-name-test-as-own-branch", "S", "", R + "project.py", "        if not path.suffix or path.name in self.license_map:\n            raise SpdxIdentifierNotFoundError(f\"{path} has no file extension\")\n",
-  "        if not path.suffix:\n            raise SpdxIdentifierNotFoundError(f\"{path} has no file extension\")\n        if path.name in self.license_map:\n            raise SpdxIdentifierNotFoundError(f\"{path} has no file extension\")\n")
+    V(_p, "whole-name-not-looked-up-first", "F", _r, R + "project.py", "        if not path.suffix or (\n            path.name in self.license_map\n            and not _LICENSEREF_PATTERN.match(path.name)\n        ):\n", "        if not path.suffix:\n")
+V("C06", "whole-name-test-as-own-branch", "S", "", R + "project.py", "        if not path.suffix or (\n            path.name in self.license_map\n            and not _LICENSEREF_PATTERN.match(path.name)\n        ):\n            raise SpdxIdentifierNotFoundError(f\"{path} has no file extension\")\n",
+  "        if not path.suffix:\n            raise SpdxIdentifierNotFoundError(f\"{path} has no file extension\")\n        if path.name in self.license_map and not _LICENSEREF_PATTERN.match(path.name):\n            raise SpdxIdentifierNotFoundError(f\"{path} has no file extension\")\n")
 V("C19", "dangling-link-written-through", "F", "R1", R + "download.py", "    if destination.exists() or destination.is_symlink():\n", "    if destination.exists():\n")
 V("C19", "existence-by-lexists", "S", "", R + "download.py", "    if destination.exists() or destination.is_symlink():\n", "    if os.path.lexists(destination):\n")
 V("C19", "link-test-first", "S", "", R + "download.py", "    if destination.exists() or destination.is_symlink():\n", "    if destination.is_symlink() or destination.exists():\n")
@@ -610,4 +610,18 @@ V("C03", "covered-files-as-generator", "F", "H", CAP, "all_files = [path.resolve
 V("C03", "covered-files-as-set", "S", "", CAP, "all_files = [path.resolve() for path in project.all_files()]", "all_files = {path.resolve() for path in project.all_files()}")
 # C14-R6 drivers
 V("C14", "container-clears-callers-licences", "F", "R6", R + "report.py", "            self.has_dep5 = bool(project.global_licensing)\n", "            self.has_dep5 = bool(project.global_licensing)\n            project.global_licensing = None\n")
+# C14-R12 / C06-R4: the whole-name lookup must not read LicenseRef- names the scan itself registered
+_WN = "        if not path.suffix or (\n            path.name in self.license_map\n            and not _LICENSEREF_PATTERN.match(path.name)\n        ):\n"
+for _p, _r in (("C14", "R12"), ("C06", "R4")):
+    V(_p, "whole-name-lookup-reads-scan-state", "F", _r, R + "project.py", _WN, "        if not path.suffix or path.name in self.license_map:\n")
+V("C14", "whole-name-lookup-lref-test-first", "S", "", R + "project.py", _WN, "        if not path.suffix or (\n            not _LICENSEREF_PATTERN.match(path.name)\n            and path.name in self.license_map\n        ):\n")
+# C11-R10 / C08-R6: encodable before the truncating open
+_ENC = "            (bom + output).encode(\"utf-8\")\n"
+for _p, _r in (("C11", "R10"), ("C08", "R6"), ("C10", "C08.R6")):
+    V(_p, "header-not-encoded-before-open", "F", _r, ANP, _ENC, "            pass\n")
+V("C11", "encode-check-without-the-constant-bom", "S", "", ANP, _ENC, "            output.encode(\"utf-8\")\n")
+V("C11", "encode-check-on-other-text", "F", "R10", ANP, _ENC, "            text.encode(\"utf-8\")\n")
+# C17-R2: the converter writes the accessor the dep5 reader parses
+V("C17", "converter-writes-whole-license-field", "F", "R2", R + "convert_dep5.py", '"SPDX-License-Identifier": paragraph.license.synopsis,', '"SPDX-License-Identifier": paragraph.license.to_str(),')
+V("C17", "converter-licence-via-cast", "S", "", R + "convert_dep5.py", '"SPDX-License-Identifier": paragraph.license.synopsis,', '"SPDX-License-Identifier": cast(str, paragraph.license.synopsis),')
 
